@@ -681,7 +681,23 @@ func (ex *Executor) sprintf(st *State, format Value, args Value) *Term {
 			return StrCat(parts...)
 		}
 	}
-	return App("sprintf", SStr, ft, ex.argsDigest(st, args))
+	out := App("sprintf", SStr, ft, ex.argsDigest(st, args))
+	// a format without verbs and no operands is printed as it is
+	var n *Term
+	switch a := args.(type) {
+	case *SymSliceV:
+		n = a.Len
+	case *SliceV:
+		n = IntLit(int64(len(elems)))
+	case *Term:
+		if a.S == SInt {
+			n = App("slen", SInt, a)
+		}
+	}
+	if n != nil {
+		st.Fact(Implies(And(Eq(n, IntLit(0)), Not(Builtin("str.contains", SBool, ft, StrLit("%")))), Eq(out, ft)))
+	}
+	return out
 }
 
 // sel builds a select without simplification (for quantified bodies).
